@@ -325,7 +325,18 @@ def federationImportNames : List Text :=
 def linkDir (url : Text) (imports : List Text) : PDirective :=
   ⟨kwT "link", [(kwT "url", .str url), (kwT "import", .list (imports.map .str))]⟩
 
-/-- the schema definition (plain export) or the schema extensions (federation export) -/
+/-- the import name of a directive: `@name` -/
+def importName (d : DirDef) : Text := '@' :: d.name
+
+/-- the `@link`s the composable directives call for: one per distinct URL (order of first
+    appearance), importing every directive registered with that URL -/
+def linkGroups (ds : List DirDef) : List (Text × List Text) :=
+  ((ds.filterMap (·.composable)).eraseDups).map
+    (fun u => (u, (ds.filter (fun d => d.composable = some u)).map importName))
+
+/-- the schema definition (plain export) or the schema extensions (federation export); `groups`:
+    the link groups in the order the document lists them (a permutation of `linkGroups`: the
+    order of schema extensions carries no meaning) -/
 def dSchema (o : Opts) (S : Schema) (composeGroups : List (Text × List Text)) : List SDef :=
   if o.federation then
     .schema true [linkDir (kwT "https://specs.apollo.dev/federation/v2.5") federationImportNames] none none none ::
@@ -349,7 +360,7 @@ def startsDunder : Text → Bool
     the federation machinery out), every registered directive definition in name order — the
     built-in directives (§3.13: may be omitted) only as far as listed in `present` —, then the
     schema definition.  `registered` is the registry's directive table, `groups` the composable
-    directives by URL. -/
+    directives by URL (`linkGroups registered` in some order). -/
 def describe (o : Opts) (S : Schema) (registered : List DirDef) (groups : List (Text × List Text))
     (present : List Text) : List SDef :=
   ((sorted true TypeDef.name S.types).filter
